@@ -42,12 +42,18 @@ def case_strategy(draw, tier="quick"):
             "filter2": draw(st.sampled_from([None, None, None, ["&", 2], ["|", 4], ["&", 0]])),
             # z = x <op> y assigned as a new column before everything else
             "assign": draw(st.sampled_from(["+", "*", "-"])),
+            # in-place assignment (sdf[key] = value) before everything else: a Series value
+            # overwriting x (an accessor of the old column is kept alive), a DataFrame value with
+            # a list key (columns pair by position: this swaps x and y), a scalar value
+            "setitem": draw(st.sampled_from([None, None, None, "overwrite", "swap", "scalar"])),
+            # how single columns are selected afterwards: attribute or item access
+            "access": draw(st.sampled_from(["attr", "item"])),
             "group": group}
     if expr["filter"] is None:
         expr["filter2"] = None
     expr["agg"] = draw(st.sampled_from(GAGGS if group else AGGS))
     if expr["agg"] in ("var", "std"):
-        expr["ddof"] = draw(st.sampled_from([1, 1, 0]))
+        expr["ddof"] = draw(st.sampled_from([1, 1, 0, 2, 3]))
     # build the grouped frame expression *before* the grouper expression (the frame batch then
     # reaches the join of frame and grouper first)
     expr["late_grouper"] = bool(group in ("series", "mod2") and draw(st.booleans()))
@@ -86,7 +92,7 @@ def apply_expr(df, expr, streaming):
     if expr["base"] == "xy":
         sel = f[["x", "y"]]
     else:
-        sel = f[expr["base"]]
+        sel = getattr(f, expr["base"]) if expr.get("access") == "attr" else f[expr["base"]]
     if expr["arith"]:
         op, c = expr["arith"]
         sel = sel + c if op == "+" else (sel * c if op == "*" else sel - c)
@@ -101,6 +107,19 @@ def apply_expr(df, expr, streaming):
 def prepare(df, expr):
     """assign + filter stage (elementwise, identical code for streamz and pandas frames)"""
     f = df
+    si = expr.get("setitem")
+    if si:
+        if isinstance(f, pd.DataFrame):
+            f = f.copy()
+        else:
+            f = type(f)(f.stream, example=f.example)   # a fresh streaming frame on the same stream
+        if si == "overwrite":
+            keep = f.x                  # noqa: F841  (stays alive: a stale accessor must not be reused)
+            f["x"] = keep * 2
+        elif si == "swap":
+            f[["y", "x"]] = f[["x", "y"]] * 2
+        else:
+            f["y"] = 3
     if expr.get("assign") and expr["base"] == "z":
         op = expr["assign"]
         z = f.x + f.y if op == "+" else (f.x * f.y if op == "*" else f.x - f.y)
@@ -190,6 +209,8 @@ def execute(case):
         classes.append("nan")
     if expr["filter"] is not None:
         classes.append("filter")
+    if expr.get("setitem"):
+        classes.append("setitem:" + expr["setitem"])
     return Result(v, nontrivial=nt, classes=classes)
 
 
